@@ -318,6 +318,25 @@ def run_workflows(rng, tier, W):
         quiet(cli.entrypoint, ["cascade", "--parallelism", "1", "--start", str(depth), out])
         recs.append(dict(name="tile-allsky+cascade", outdir=out, kind=("toast", depth), casc=True, scheme="L/Y/YX", inputs=[depth, proj]))
         recs[-1]["snapshot"] = snapshot(recs[-1])
+    # tile-wwtl: a WWT layer file holding a jpg (the sample of the test suite) tiled as a study
+    try:
+        from wwt_data_formats.filecabinet import FileCabinetWriter
+        from PIL import Image as PILImage
+        tdir = os.path.join(str(common.REPO), "toasty", "tests")
+        fw = FileCabinetWriter()
+        fw.add_file_with_data("55cb0cce-c44a-4a44-a509-ea66fce643a5.wwtxml", open(os.path.join(tdir, "layercontainer.wwtxml"), "rb").read())
+        fw.add_file_with_data("55cb0cce-c44a-4a44-a509-ea66fce643a5\\7ecb6411-e4ee-4dfa-90ef-77d6f486c7d2.jpg",
+                              open(os.path.join(tdir, "NGC253ALMA.jpg"), "rb").read())
+        wl = os.path.join(W, "image.wwtl")
+        with open(wl, "wb") as f:
+            fw.emit(f)
+        ww, wh = PILImage.open(os.path.join(tdir, "NGC253ALMA.jpg")).size
+        out = os.path.join(W, "wwtl")
+        quiet(cli.entrypoint, ["tile-wwtl", "--placeholder-thumbnail", "--outdir", out, wl])
+        recs.append(dict(name="tile-wwtl", outdir=out, kind=("study", ww, wh), casc=False, scheme="L/Y/YX", inputs=[ww, wh, "jpg in a wwtl"]))
+        recs[-1]["snapshot"] = snapshot(recs[-1])
+    except ImportError:
+        pass
     # tile_fits, TAN: one image -> the study set of that image; mosaic -> listed base
     f1 = os.path.join(W, "t1.fits")
     mk_fits(f1, 300, 300, 0.001)
